@@ -2638,7 +2638,7 @@ class Recipe:
                 entry = container.contents.items()
                 return sum(map(conversion_helper, entry))
             elif isinstance(container, Plate):
-                vfunc = np.vectorize(plate_helper)
+                vfunc = np.vectorize(plate_helper, otypes=[float])
                 return vfunc(container.wells)
 
         if unit is None:
